@@ -272,22 +272,48 @@ Qed.
 
 Lemma register_ack_ostep o pkid o' ok : register_ack o pkid = (o', ok) -> ostep o o'.
 Proof.
-  unfold register_ack. intros H. destruct (o_inflight o) as [| [[h x] y] r] eqn:E; inv_ok.
-  - constructor.
-  - eapply os_pop; eauto.
+  unfold register_ack. intros H. destruct (o_inflight o) as [| [[h x] y] r] eqn:E; [inv_ok; constructor |].
+  destruct (pkid =? h); inv_ok; [eapply os_pop; eauto | constructor].
 Qed.
 
+(** the head is popped iff it carries this pkid; otherwise the window is unchanged *)
 Lemma register_ack_spec o pkid o' ok :
   register_ack o pkid = (o', ok) ->
   match o_inflight o with
   | [] => o' = o /\ ok = false
-  | h :: r => o' = set_o_inflight o r /\ ok = (pkid =? pkid_of h)
+  | h :: r => if pkid =? pkid_of h then o' = set_o_inflight o r /\ ok = true else o' = o /\ ok = false
   end.
-Proof. unfold register_ack. intros H. destruct (o_inflight o) as [| [[h x] y] r]; inv_ok; auto. Qed.
+Proof.
+  unfold register_ack. intros H. destruct (o_inflight o) as [| [[h x] y] r]; [inv_ok; auto |].
+  cbn [pkid_of fst]. destruct (pkid =? h); inv_ok; auto.
+Qed.
+
+Lemma register_ack_mismatch o pkid :
+  match o_inflight o with [] => True | h :: _ => pkid <> pkid_of h end ->
+  register_ack o pkid = (o, false).
+Proof.
+  unfold register_ack. destruct (o_inflight o) as [| [[h x] y] r]; [reflexivity |].
+  cbn [pkid_of fst]. intros Hne. destruct (N.eqb_spec pkid h); [contradiction | reflexivity].
+Qed.
+
+Lemma register_ack_match o pkid h r :
+  o_inflight o = h :: r -> pkid = pkid_of h -> register_ack o pkid = (set_o_inflight o r, true).
+Proof.
+  unfold register_ack. intros -> ->. destruct h as [[h x] y]. cbn [pkid_of fst]. now rewrite N.eqb_refl.
+Qed.
 
 Lemma register_pubcomp_ostep o pkid o' ok : register_pubcomp o pkid = (o', ok) -> ostep o o'.
 Proof.
-  unfold register_pubcomp. intros H. destruct (o_pubrels o) as [| h r]; inv_ok; constructor.
+  unfold register_pubcomp. intros H. destruct (o_pubrels o) as [| h r]; [inv_ok; constructor |].
+  destruct (pkid =? h); inv_ok; constructor.
+Qed.
+
+Lemma register_pubcomp_mismatch o pkid :
+  match o_pubrels o with [] => True | h :: _ => pkid <> h end ->
+  register_pubcomp o pkid = (o, false).
+Proof.
+  unfold register_pubcomp. destruct (o_pubrels o) as [| h r]; [reflexivity |].
+  intros Hne. destruct (N.eqb_spec pkid h); [contradiction | reflexivity].
 Qed.
 
 (* ------------------------------------------------------------------ state level *)
